@@ -139,6 +139,23 @@ theorem prepareDown_none_iff_bumpDown_none {s e sz al ma : Nat} (hal : 0 < al) (
   · rintro h ⟨q, h1, _, h3, h4⟩; exact h ⟨q, h1, h3, h4⟩
   · rintro h ⟨q, h1, h3, h4⟩; exact h ⟨q, h1, Nat.dvd_trans hd h1, h3, h4⟩
 
+/-- A request that fits is no larger than the free range, and from an already aligned start the converse holds:
+    the only bytes ever lost are alignment padding (up). -/
+theorem bumpUp_fits_size_le {s e sz al ma : Nat} (hal : 0 < al)
+    (h : Spec.bumpUp s e sz al ma ≠ none) : s + sz ≤ e := by
+  apply Classical.byContradiction
+  intro hc
+  apply h
+  rw [bumpUp_none_iff hal]
+  rintro ⟨q, _, h2, h3⟩
+  omega
+
+theorem bumpUp_fits_of_aligned_start {s e sz al ma : Nat} (hal : 0 < al) (hs : al ∣ s) (hle : s + sz ≤ e) :
+    Spec.bumpUp s e sz al ma ≠ none := by
+  intro h
+  rw [bumpUp_none_iff hal] at h
+  exact h ⟨s, hs, Nat.le_refl s, hle⟩
+
 /-- Non-vacuity of the corollaries: a request that fits in [16, 48) and therefore in [16, 64). -/
 example : Spec.bumpUp 16 48 24 8 1 ≠ none ∧ Spec.bumpUp 16 64 24 8 16 ≠ none := by decide
 
